@@ -627,7 +627,7 @@ func (v *FnVC) specApply(sf *SpecFun, x *CallE, env *Env, cl *Clause) Term {
 		}
 		args = append(args, at)
 	}
-	if sf.Rec && sf.Body != nil {
+	if (sf.Rec || sf.Opaque) && sf.Body != nil {
 		name := v.declareRecFun(sf, pkg, cl)
 		var as []string
 		if v.symHeaps != nil {
@@ -730,6 +730,21 @@ func (v *FnVC) declareRecFun(sf *SpecFun, pkg *ssa.Package, cl *Clause) string {
 		ps = append(ps, fmt.Sprintf("(|p!%s| %s)", sanitize(p.Name), v.sortOf(v.w.parseType(p.Type, pkg))))
 	}
 	rt := v.w.parseType(sf.Result, pkg)
+	if sf.Opaque && !sf.Rec {
+		// opaque: an uninterpreted symbol whose definition is only unfolded on its own applications
+		var sorts, names []string
+		for _, k := range sf.RecKeys {
+			sorts = append(sorts, v.heapSort(k))
+			names = append(names, "|H!"+sanitize(k)+"|")
+		}
+		for _, p := range sf.Params {
+			sorts = append(sorts, v.sortOf(v.w.parseType(p.Type, pkg)))
+			names = append(names, "|p!"+sanitize(p.Name)+"|")
+		}
+		app := "(" + name + " " + strings.Join(names, " ") + ")"
+		v.w.declareOnce(name, fmt.Sprintf("(declare-fun %s (%s) %s)\n(assert (forall (%s) (! (= %s %s) :pattern (%s))))", name, strings.Join(sorts, " "), v.sortOf(rt), strings.Join(ps, " "), app, body, app))
+		return name
+	}
 	v.w.declareOnce(name, fmt.Sprintf("(define-fun-rec %s (%s) %s %s)", name, strings.Join(ps, " "), v.sortOf(rt), body))
 	return name
 }
